@@ -564,7 +564,7 @@ func (gp *GenProgram) closureContract(r *PRule, inlined func(string) *PRule) (*F
 	// the rule tree when that gives no answer
 	var perm []int
 	if fi := gp.Unit.Funcs[fc.Key]; fi != nil && fi.Body != nil {
-		perm = gp.matchLoops(fi.Body, stars, inlined)
+		perm = gp.matchLoops(fi.Body, r.Name, stars, inlined, r.Body)
 	}
 	for i := range stars {
 		s := stars[i]
